@@ -143,7 +143,19 @@ func TestVfFill(t *testing.T) {
 	if thorough {
 		nshared = 3000
 	}
-	for _, c := range []*vfFillCase{tcpCases[2*18], tcpCases[2*2+1]} {
+	shared := []*vfFillCase{tcpCases[2*18], tcpCases[2*2+1]}
+	for _, vpn := range []bool{false, true} {
+		uo := &udpCmdOpts{ipTTL: 64, ipFlags: 2, ipProtocol: 17, udpPayload: []byte("shared")}
+		uo.vpnMode = vpn
+		shared = append(shared, &vfFillCase{kind: "udp", vpn: vpn, fill: udp.NewPacketFiller(uo.getUDPOptions()...),
+			opts: map[string]interface{}{"ttl": 64, "ipflags": 2, "ipproto": 17, "iplen": 0, "payload": vfInts(uo.udpPayload)}})
+		io := &icmpCmdOpts{ipTTL: 64, ipFlags: 2, ipProtocol: 1, icmpType: 8, icmpPayload: []byte("shared-icmp")}
+		io.vpnMode = vpn
+		shared = append(shared, &vfFillCase{kind: "icmp", vpn: vpn, fill: icmp.NewPacketFiller(io.getICMPOptions()...),
+			opts: map[string]interface{}{"ttl": 64, "ipflags": 2, "ipproto": 1, "iplen": 0, "type": 8, "code": 0, "payload": vfInts(io.icmpPayload), "defaultPayload": false}})
+	}
+	shared = append(shared, &vfFillCase{kind: "arp", vpn: false, fill: arp.NewPacketFiller(), opts: map[string]interface{}{}})
+	for _, c := range shared {
 		var mu sync.Mutex
 		var wg sync.WaitGroup
 		reqs := make([]*scan.Request, nshared*8)
